@@ -389,6 +389,8 @@ func c15(c *Ctx) (*report.Result, error) {
 	res.Explanation = "SSA of proxy.NewClusterConnection / createServer / createTCPServer / buildProxyServer / makeServerOptions (origin of the serverConfiguration that reaches each grpc.Server, content of both interceptor chains for every configuration), of interceptor.AccessControlInterceptor.Intercept / StreamIntercept (edge-sensitive must-pass-through of the allow-list and deny-list tests before the handler, PermissionDenied on refusal), of every forwarding method of both proxy servers (client method called = own name), and the generated FullMethodName constants of all service methods against the prefix constants the interceptor uses. Decides wiring and check-before-forward on every path; does not decide the contents of run-time allow-lists or gRPC's own dispatch."
 	res.Assumptions = []string{"grpc.ChainUnaryInterceptor / ChainStreamInterceptor run interceptors in slice order", "grpc dispatches a full method name to the handler registered under it", "api.MethodName returns the suffix after the last '/'"}
 	res.Analysed["service_methods"] = map[string]int{"WorkflowService": len(methods["WorkflowService"]), "AdminService": len(methods["AdminService"])}
+	res.RuleDoc["O15.7"] = "translation, access control and repair keep no memory between messages: no shipped function of the interceptor, proto/compat, auth and collect packages stores into package-level state, receiver fields or sync.Maps after construction - a cache keyed by message type or content makes the treatment of one message depend on the ones before it"
+	checkStateless(c, res, "O15.7", []string{"interceptor", "proto/compat", "auth", "collect"}, map[string]string{})
 	return res, nil
 }
 
